@@ -2099,6 +2099,32 @@ pub fn run_blocking<T: Send + 'static>(f: impl FnOnce() -> T + Send + 'static) -
     }
 }
 
+/// Pin the calling worker to a core that no other worker of any concurrently running check holds:
+/// cores are claimed with an advisory lock on a per-core file (kept until the process exits),
+/// starting at `preferred`. When every core is already claimed - another check is using the whole
+/// machine - the worker is NOT pinned: two workers forced onto one core make each of their
+/// thousands of baton hand-overs wait for the other's time slice, which is far worse than letting
+/// the scheduler place the threads. Alone on the machine, worker i gets core i as before.
+pub fn claim_core(preferred: usize, cores: usize) {
+    use std::os::unix::io::AsRawFd;
+    if std::env::var("VCHECK_NOPIN").is_ok() {
+        return;
+    }
+    let dir = if std::path::Path::new("/dev/shm").is_dir() { "/dev/shm".to_string() } else { std::env::temp_dir().to_string_lossy().to_string() };
+    for k in 0..cores {
+        let core = (preferred + k) % cores;
+        let path = format!("{dir}/vcheck-core-{core}.lock");
+        let Ok(f) = std::fs::OpenOptions::new().create(true).write(true).truncate(false).open(&path) else { continue };
+        let got = unsafe { libc::flock(f.as_raw_fd(), libc::LOCK_EX | libc::LOCK_NB) } == 0;
+        if got {
+            // the descriptor (and with it the lock) lives as long as the process
+            std::mem::forget(f);
+            pin_to_core(core);
+            return;
+        }
+    }
+}
+
 /// Pin the calling thread (and every thread it spawns later) to one core.
 pub fn pin_to_core(core: usize) {
     unsafe {
